@@ -312,7 +312,15 @@ pub fn run_slice(cases: Vec<Case>, driver: &Driver, rule: &str, exhaustive: bool
                 model_replies: model.to_vec(),
             });
         }
-        if report.failures.iter().filter(|f| f.kind == "oracle").count() >= 5 || report.failures.len() >= 200 {
+        // keep at most 4 failures per (kind, failing check) so that one cause (e.g. a known finding) cannot crowd out another
+        if let Some(last) = report.failures.last() {
+            let key = |f: &Failure| format!("{}:{}", f.kind, f.detail.split(':').next().unwrap_or("").split(' ').next().unwrap_or(""));
+            let k = key(last);
+            if report.failures.iter().filter(|f| key(f) == k).count() > 4 {
+                report.failures.pop();
+            }
+        }
+        if report.failures.len() >= 60 {
             break;
         }
     }
